@@ -1,12 +1,196 @@
 import CTM.Drive.Util
+import CTM.Model.Output
 open Lean
 
 namespace CTM.Drive.Output
-open CTM CTM.Drive
+open CTM CTM.Drive CTM.Output
 
-/-- ops of this module (stub: none yet) -/
-def handle : Handler := fun op _inp =>
+/-! JSON encodings
+
+* `Num`: `null` | `"nan"` | `[num, den]`
+* `LevelRec`: `{"a","p","c","g","d","ra","rp","rc"}` (`ra/rp/rc` null when absent)
+* `Record`: `{"id", "levels": [[level, LevelRec], ...]}`
+* `Tree`: `{"hierarchy", "levels": [[level, [[node, [..]], ..]], ..],
+   "nameMapper": null | [[level, [[node, {"name","alias"}], ..]], ..],
+   "hierarchyMapper": null | [[level, str], ..]}`
+-/
+
+def parseNum (j : Json) : R Num :=
+  if j.isNull then .ok .null
+  else match j with
+    | .str "nan" => .ok .nan
+    | _ => (asRat j).map .val
+
+def jNum : Num → Json
+  | .null => Json.null
+  | .nan => jStr "nan"
+  | .val q => jRat q
+
+def parseLevelRec (j : Json) : R LevelRec := do
+  return {
+    assignment := ← asNat (← field j "a"),
+    prob := ← parseNum (fieldD j "p" Json.null),
+    corr := ← parseNum (fieldD j "c" Json.null),
+    agg := ← parseNum (fieldD j "g" Json.null),
+    direct := ← asBool (← field j "d"),
+    runAsg := ← asOption natList (fieldD j "ra" Json.null),
+    runProb := ← asOption (asList parseNum) (fieldD j "rp" Json.null),
+    runCorr := ← asOption (asList parseNum) (fieldD j "rc" Json.null) }
+
+def jLevelRec (r : LevelRec) : Json :=
+  jObj [("a", jNat r.assignment), ("p", jNum r.prob), ("c", jNum r.corr), ("g", jNum r.agg),
+        ("d", jBool r.direct), ("ra", jOpt jNats r.runAsg),
+        ("rp", jOpt (jList jNum) r.runProb), ("rc", jOpt (jList jNum) r.runCorr)]
+
+def parseRecord (j : Json) : R Record := do
+  return { cellId := ← asNat (← field j "id"),
+           levels := ← asList (asPair asNat parseLevelRec) (← field j "levels") }
+
+def jRecord (r : Record) : Json :=
+  jObj [("id", jNat r.cellId), ("levels", jList (jPair jNat jLevelRec) r.levels)]
+
+def parseNameEntry (j : Json) : R NameEntry := do
+  return { name := ← asOption asNat (fieldD j "name" Json.null),
+           alias := ← asOption asNat (fieldD j "alias" Json.null) }
+
+def parseTree (j : Json) : R Output.Tree := do
+  return {
+    hierarchy := ← natList (← field j "hierarchy"),
+    levels := ← asList (asPair asNat (asList (asPair asNat natList))) (← field j "levels"),
+    nameMapper := ← asOption (asList (asPair asNat (asList (asPair asNat parseNameEntry))))
+      (fieldD j "nameMapper" Json.null),
+    hierarchyMapper := ← asOption (asList (asPair asNat asNat)) (fieldD j "hierarchyMapper" Json.null) }
+
+def jNameEntry (e : NameEntry) : Json :=
+  jObj [("name", jOpt jNat e.name), ("alias", jOpt jNat e.alias)]
+
+def jTree (t : Output.Tree) : Json :=
+  jObj [("hierarchy", jNats t.hierarchy),
+        ("levels", jList (jPair jNat (jList (jPair jNat jNats))) t.levels),
+        ("nameMapper", jOpt (jList (jPair jNat (jList (jPair jNat jNameEntry)))) t.nameMapper),
+        ("hierarchyMapper", jOpt (jList (jPair jNat jNat)) t.hierarchyMapper)]
+
+def parseBlob (j : Json) : R Blob := do
+  return { tree := ← parseTree (← field j "tree"),
+           nRunners := ← asNat (← field j "nRunners"),
+           results := ← asList parseRecord (← field j "results") }
+
+def jBlob (b : Blob) : Json :=
+  jObj [("tree", jTree b.tree), ("nRunners", jNat b.nRunners),
+        ("results", jList jRecord b.results)]
+
+def jExcept {α} (f : α → Json) : Except Err α → Json
+  | .ok a => jObj [("ok", f a)]
+  | .error e => jObj [("err", jStr e.name)]
+
+def jH5 (h : H5) : Json :=
+  jObj [("tree", jTree h.tree), ("nRunners", jNat h.nRunners),
+        ("directlyAssigned", jList jBool h.directlyAssigned),
+        ("intToNode", jList (jPair jNat jNats) h.intToNode),
+        ("cellId", jNats h.cellId),
+        ("assignment", jList jInts h.assignment),
+        ("prob", jList (jList jNum) h.prob),
+        ("agg", jList (jList jNum) h.agg),
+        ("corr", jList (jList jNum) h.corr),
+        ("runners", jOpt (fun (r : RunnerArrays) =>
+          jObj [("asg", jList (jList jInts) r.asg),
+                ("prob", jList (jList (jList jNum)) r.prob),
+                ("corr", jList (jList (jList jNum)) r.corr)]) h.runners)]
+
+def jCell : Cell → Json
+  | .str s => jObj [("s", jNat s)]
+  | .fixed4 q => jObj [("f4", jRat q)]
+  | .raw q => jObj [("raw", jRat q)]
+  | .empty => Json.null
+
+def colKindName : ColKind → String
+  | .label => "label" | .name => "name" | .alias => "alias" | .conf => "conf"
+
+def jColumn : Option (StrId × ColKind) → Json
+  | none => Json.null
+  | some (s, k) => Json.arr #[jNat s, jStr (colKindName k)]
+
+def jComments (c : Comments) : Json :=
+  jObj [("metadata", jOpt jNat c.metadata), ("hierarchy", jNats c.hierarchy),
+        ("readable", jOpt jNats c.readable),
+        ("algorithmIsCorrelation", jOpt jBool c.algorithmIsCorrelation)]
+
+/-- `PyVal` as JSON: `{"t": tag, "v": payload}` -/
+partial def parsePyVal (j : Json) : R PyVal := do
+  let t ← asStr (← field j "t")
+  let v := fieldD j "v" Json.null
+  match t with
+  | "none" => return .none
+  | "bool" => return .bool (← asBool v)
+  | "npBool" => return .npBool (← asBool v)
+  | "int" => return .int (← asInt v)
+  | "npInt64" => return .npInt64 (← asInt v)
+  | "num" => return .num (← parseNum v)
+  | "str" => return .str (← asNat v)
+  | "other" => return .other (← asNat v)
+  | "list" => return .list (← asList parsePyVal v)
+  | "tuple" => return .tuple (← asList parsePyVal v)
+  | "intSet" => return .intSet (← intList v)
+  | "ndarray" => return .ndarray (← asList parsePyVal v)
+  | "dict" => return .dict (← asList (asPair parsePyVal parsePyVal) v)
+  | _ => .error s!"unknown PyVal tag {t}"
+
+partial def jPyVal : PyVal → Json
+  | .none => jObj [("t", jStr "none")]
+  | .bool b => jObj [("t", jStr "bool"), ("v", jBool b)]
+  | .npBool b => jObj [("t", jStr "npBool"), ("v", jBool b)]
+  | .int i => jObj [("t", jStr "int"), ("v", jInt i)]
+  | .npInt64 i => jObj [("t", jStr "npInt64"), ("v", jInt i)]
+  | .num x => jObj [("t", jStr "num"), ("v", jNum x)]
+  | .str s => jObj [("t", jStr "str"), ("v", jNat s)]
+  | .other k => jObj [("t", jStr "other"), ("v", jNat k)]
+  | .list xs => jObj [("t", jStr "list"), ("v", Json.arr (xs.map jPyVal).toArray)]
+  | .tuple xs => jObj [("t", jStr "tuple"), ("v", Json.arr (xs.map jPyVal).toArray)]
+  | .intSet xs => jObj [("t", jStr "intSet"), ("v", jInts xs)]
+  | .ndarray xs => jObj [("t", jStr "ndarray"), ("v", Json.arr (xs.map jPyVal).toArray)]
+  | .dict kvs => jObj [("t", jStr "dict"),
+      ("v", Json.arr (kvs.map (fun (k, v) => Json.arr #[jPyVal k, jPyVal v])).toArray)]
+
+def handle : Handler := fun op inp =>
   match op with
+  | "output.h5" => some do
+      -- blob_to_hdf5 then hdf5_to_blob
+      let b ← parseBlob (← field inp "blob")
+      let h := toH5 b
+      let back : Except Err Blob := match h with
+        | .ok h => ofH5 h
+        | .error e => .error e
+      return jObj [("h5", jExcept jH5 h), ("back", jExcept jBlob back),
+                   ("outInv", jBool (outInv b))]
+  | "output.csv" => some do
+      let t ← parseTree (← field inp "tree")
+      let taint ← natList (fieldD inp "taint" (Json.arr #[]))
+      let iters ← asNat (← field inp "bootstrapIteration")
+      let results ← asList parseRecord (← field inp "results")
+      let mname ← asOption asNat (fieldD inp "metadataName" Json.null)
+      let flat ← asOption asBool (fieldD inp "flatten" Json.null)
+      let ck := confidenceKey iters
+      return jObj [
+        ("comments", jComments (csvComments t mname flat)),
+        ("columns", jList jColumn (csvColumns t)),
+        ("confIsCorrelation", jBool (ck == .avgCorrelation)),
+        ("rows", jExcept (jList (jList jCell)) (csvRows t taint ck results))]
+  | "output.fmt4" => some do
+      let xs ← ratList (← field inp "xs")
+      return jList (fun q => jObj [("v", jRat (fmt4 q)), ("s", jStr (fmt4Str q))]) xs
+  | "output.dropCells" => some do
+      let t ← parseTree (← field inp "tree")
+      let dl ← asOption asNat (fieldD inp "dropLevel" Json.null)
+      let fl ← asBool (fieldD inp "flatten" (Json.bool false))
+      return jTree (embeddedTree t dl fl)
+  | "output.cleanForJson" => some do
+      let v ← parsePyVal (← field inp "value")
+      return jObj [("clean", jPyVal (clean v)), ("plain", jBool (plain (clean v))),
+                   ("noOther", jBool (noOther v))]
+  | "output.reorder" => some do
+      let results ← asList parseRecord (← field inp "results")
+      let order ← natList (← field inp "order")
+      return jExcept (jList jRecord) (reorder results order)
   | _ => none
 
 end CTM.Drive.Output
